@@ -280,6 +280,8 @@ def execute(ctx, case: dict) -> None:
                         tgt.items.pop(mut["idx"] % len(tgt.items))
                     elif mut["op"] == "line" and tgt.items:
                         tgt.items[mut["idx"] % len(tgt.items)].line = mut["text"]
+                    elif mut["op"] == "degroup":
+                        tgt.line = mut["text"]  # the group address becomes a plain address: its former members no longer count
                     else:
                         continue
                 except (ValueError, TypeError):
@@ -308,6 +310,20 @@ def execute(ctx, case: dict) -> None:
                 _ = member in group
             except TypeError:
                 ctx.count("in_refused_typeerror")
+            if case.get("reassign"):
+                # history: one member gets another text; a query with the *old* text of that member is a new question
+                idx = case["reassign"][0] % len(group.items)
+                old_text = group.items[idx].line
+                try:
+                    group.items[idx].line = case["reassign"][1]
+                    ctx.count("group_member_lines_reassigned")
+                    for probe in (AddressAg(old_text, platform=platform, max_ncwb=20), member):
+                        try:
+                            _ = probe in group
+                        except TypeError:
+                            ctx.count("in_refused_typeerror")
+                except ValueError:
+                    pass
     except RuntimeError:
         raise
     except Exception as ex:  # pylint: disable=broad-except
@@ -348,7 +364,7 @@ def gen_cases(ctx):
                 case["rel"] = "grp-" + rel
                 if rng.random() < 0.6:
                     case["muts"] = [{"who": rng.choice(side.replace("ab", "a b").split() if side == "ab" else [side]),
-                                     "op": rng.choice(["append", "pop", "line", "line"]), "idx": rng.randrange(4),
+                                     "op": rng.choice(["append", "pop", "line", "line", "degroup"]), "idx": rng.randrange(4),
                                      "text": spell(rng, derive(rng, rng.choice([ca, cb]))[0], platform, "Address")}
                                     for _ in range(rng.randint(1, 3))]
             yield case
@@ -375,7 +391,13 @@ def gen_cases(ctx):
             sa = spell(rng, ca, platform, "AddressAg")
             if sa is None or any(t is None for t in texts):
                 continue
-            yield {"k": "group", "platform": platform, "a": sa, "members": texts, "rel": rel, "ka": 0, "kb": len(texts)}
+            grp = {"k": "group", "platform": platform, "a": sa, "members": texts, "rel": rel, "ka": 0, "kb": len(texts)}
+            if rng.random() < 0.4:
+                other = bits.cube(rng.getrandbits(32), (1 << rng.randint(0, 12)) - 1)
+                new_text = spell(rng, other, platform, "AddressAg")
+                if new_text:
+                    grp["reassign"] = [rng.randrange(8), new_text]
+            yield grp
 
 
 def run(ctx) -> None:
